@@ -256,6 +256,24 @@ func (r *Runner) Restart() (err error) {
 	return nil
 }
 
+// RestoreFrom replaces the live session by one read from JSON stored earlier (a host that restarts after a failed call
+// has only what it stored after the last successful one). Source state is restored afterwards, as in Restart.
+func (r *Runner) RestoreFrom(data []byte) (err error) {
+	defer func() {
+		if rec := recover(); rec != nil {
+			err = fmt.Errorf("panic in ReadSession: %v\n%s", rec, debug.Stack())
+		}
+	}()
+	st := r.Src.Snapshot()
+	defer r.Src.Restore(st)
+	s, err := r.Eng.ReadSession(r.SA, data, r.missing)
+	if err != nil {
+		return err
+	}
+	r.Session = s
+	return nil
+}
+
 // Waiting reports whether the session can be resumed.
 func (r *Runner) Waiting() bool {
 	return r.Session != nil && r.Session.Status() == flows.SessionStatusWaiting
